@@ -220,6 +220,11 @@ def check_string(s, res, via_template=False):
     return changed
 
 
+def _lk_render(lk, text, v):
+    lk.put_string("t.html", text)
+    return lk.get_template("t.html").render_unicode(v=v)
+
+
 class Obj:
     def __init__(self, s):
         self.s = s
@@ -275,6 +280,30 @@ def check_decode_objects(res):
     res.count("held_decoders_called")
     if out != "caf\u00e9|caf\u00e9|caf\u00e9|caf\u00e9":
         res.violate("decode-wrong", "decoders aliased in a module block and used as filters rendered %r" % out)
+    # decode.<enc> written as a filter in templates - every spelling of a codec name Python accepts as an attribute
+    # (with digits and underscores), in the three places a filter can stand
+    from mako.lookup import TemplateLookup
+    spellings = [("utf8", "utf-8"), ("utf_8", "utf-8"), ("latin1", "latin-1"), ("latin_1", "latin-1"), ("iso8859_1", "latin-1"), ("iso8859_15", "iso8859-15"),
+                 ("cp1251", "cp1251"), ("koi8_r", "koi8-r"), ("shift_jis", "shift_jis"), ("euc_jp", "euc-jp"), ("utf_16", "utf-16"), ("ascii", "ascii"), ("UTF8", "utf-8")]
+    for attr, codec in spellings:
+        txt = {"ascii": "plain", "latin-1": "caf\u00e9", "iso8859-15": "\u20acuro", "cp1251": "\u0416\u0443\u043a", "koi8-r": "\u0416\u0443\u043a", "shift_jis": "\u65e5\u672c",
+               "euc-jp": "\u65e5\u672c"}.get(codec, "caf\u00e9 \u20ac \u65e5")
+        b = txt.encode(codec)
+        forms = {
+            "expression filter": lambda: Template("${v | n,decode.%s}" % attr).render_unicode(v=b),
+            "def filter": lambda: Template('<%%def name="d()" filter="decode.%s"><%% context.write(v) %%></%%def>${d()}' % attr, default_filters=[]).render_unicode(v=txt),
+            "default_filters of a lookup": lambda: _lk_render(TemplateLookup(default_filters=["decode.%s" % attr]), "${v}", b),
+            "buffer_filters": lambda: Template('<%def name="d()" buffered="True">${v}</%def>${d()}', buffer_filters=["decode.%s" % attr]).render_unicode(v=txt),
+        }
+        for where, fn in forms.items():
+            res.evaluations += 1
+            res.count("decode_filter_spellings")
+            try:
+                got = fn()
+            except Exception as e:
+                got = "%s: %s" % (type(e).__name__, e)
+            if got != txt:
+                res.violate("decode-filter-in-template", "decode.%s as %s: rendered %r, expected %r" % (attr, where, got, txt))
     res.nontrivial("decode-objects")
 
 
